@@ -210,6 +210,7 @@ Proof.
     destruct (s_cur s) as [g0|] eqn:Ec; [|apply Plain; rewrite <- H; reflexivity].
     destruct (t_prev u) eqn:Epv; [apply Plain; rewrite <- H; reflexivity|].
     destruct (s_full s) eqn:Efu; [|apply Plain; rewrite <- H; reflexivity].
+    destruct (t_kind u) eqn:Ekd; cbn [andb] in H; [|apply Plain; rewrite <- H; reflexivity].
     injection H as <- <-.
     unfold step_facts, ok_change. mf Hpc. cbn [s_ptr s_cur s_maps s_closed s_word].
     split; [split; [rewrite app_length; lia|]; split; [right; right; reflexivity|]; left; split; [reflexivity|]; split; [lia|]; intros X; left; exact X|].
